@@ -2,6 +2,7 @@ import RecipeGrid.Model.Html
 import RecipeGrid.Model.ParserDispatch
 import RecipeGrid.Model.MarkdownDispatch
 import RecipeGrid.Model.SiteDispatch
+import RecipeGrid.Model.FsDispatch
 /-! Line protocol: one request S-expression per line, one reply per line. -/
 namespace RG
 open Sexp
@@ -91,6 +92,6 @@ def dispatch : Sexp → Sexp
     match Tree.ofSexp? sub, i.asNat?, Amount.ofSexp? a with
     | some sub, some i, some a => invResult (mkReference sub i a)
     | _, _, _ => err "args"
-  | req => (((dispatchParser req).orElse fun _ => dispatchMarkdown req).orElse fun _ => dispatchSite req).getD (err "unknown")
+  | req => ((((dispatchParser req).orElse fun _ => dispatchMarkdown req).orElse fun _ => dispatchSite req).orElse fun _ => fsDispatch req).getD (err "unknown")
 
 end RG
